@@ -376,7 +376,17 @@ pub fn display(args: &[String]) -> i32 {
         if neg {
             num = -num;
         }
-        let r = anything::Rational::new(num, den);
+        // form: how the value reaches the formatter.  Rational::new reduces and keeps the denominator positive; a value that was
+        // stored (serde: the pair as it stands) may have both parts negated ("negden") or a common factor ("unreduced") --
+        // the same rational number, and a value of the type like any other
+        let form = v["form"].as_str().unwrap_or("");
+        let r = if form == "negden" || form == "unreduced" {
+            let (a, b) = if form == "negden" { (-num.clone(), -den.clone()) } else { (num.clone() * BigInt::from(6), den.clone() * BigInt::from(6)) };
+            let enc = |x: BigInt| serde_json::to_value(anything::Rational::new(x, BigInt::from(1))).expect("encode")[0].clone();
+            serde_json::from_value::<anything::Rational>(Value::Array(vec![enc(a), enc(b)])).expect("a pair decodes to a rational")
+        } else {
+            anything::Rational::new(num, den)
+        };
         let text = std::panic::catch_unwind(|| {
             let mut spec = anything::rational::DisplaySpec::default();
             spec.limit = limit;
@@ -388,7 +398,7 @@ pub fn display(args: &[String]) -> i32 {
             Err(e) => (String::new(), panic_text(e)),
         };
         let chars: Vec<String> = text.chars().map(|c| if c == '…' { "ELL".to_string() } else { c.to_string() }).collect();
-        out.line(&json!({"id": i + 1, "neg": neg, "n": n, "d": d, "k": k, "limit": limit, "el": el, "text": text, "chars": chars, "panic": panic}));
+        out.line(&json!({"id": i + 1, "neg": neg, "n": n, "d": d, "k": k, "limit": limit, "el": el, "form": form, "text": text, "chars": chars, "panic": panic}));
         count += 1;
     }
     out.finish();
